@@ -1,6 +1,6 @@
 """C01 -- compiled circuit computes the function its symbolic circuit denotes (structural clauses)."""
 from ..core import Ctx, Ob, PropSpec
-from ..rules import r1
+from ..rules import r1, r4lite
 
 
 def run(ctx: Ctx) -> list[Ob]:
@@ -12,6 +12,7 @@ def run(ctx: Ctx) -> list[Ob]:
     obs += r1.r1a(ctx, r1.PARAM_REG)
     obs += r1.r1b(ctx, r1.PARAM_REG)
     obs += r1.r1c(ctx, r1.PARAM_REG, False)
+    obs += r4lite.batch_squeeze(ctx)
     return obs
 
 
@@ -23,13 +24,15 @@ SPEC = PropSpec(
         "registered for X constructs X's torch counterpart on every return path (a re-pointed registry row computes another function); "
         "R1c: every config key and parameter of the symbolic class flows into the counterpart's constructor (unit counts, arity, "
         "num_categories, total_count, degree, log_space, axes, parameter graphs through compile_parameter) -- a dropped keyword "
-        "silently evaluates with a default; R1d: every layer rule forwards the compiler's semiring."
+        "silently evaluates with a default; R1d: every layer rule forwards the compiler's semiring; R4 (size-dependent rank): no "
+        "evaluation method of an input-function layer (forward / log_unnormalized_likelihood and the helpers that receive the "
+        "input unchanged) squeezes the fold or batch axis of its (F, B, D) input -- the static form of 'each row depends only on "
+        "its own row, whatever the batch size'."
     ),
     not_decided=(
-        "numerical equality with the denoted function; tensor-shape contracts of the forward functions (the shape interpreter "
-        "of DESIGN 3.R4 was not built: the D11 _polyval squeeze defect is therefore not reported by this check); run-time "
-        "address-book index arithmetic."
+        "numerical equality with the denoted function; the full tensor-shape contracts of the forward functions (shape "
+        "interpreter of DESIGN 3.R4 not built); semiring tables (R11 not built); run-time address-book index arithmetic."
     ),
     run=run,
-    floors={"R1a": 38, "R1b": 38, "R1c": 170, "R1d": 10},
+    floors={"R1a": 38, "R1b": 38, "R1c": 170, "R1d": 10, "R4": 8},
 )
